@@ -177,7 +177,9 @@ async def _run_bridge_sequence(nports: int, arrivals: List[Tuple[int, str]], fai
             if wellknown:           # somebody else (another check running at the same time) took a well-known port meanwhile
                 tx.close()
                 return "0 NOT-RUN(the well-known ports are in use on this machine right now)", []
-            raise
+            # ports that were free a moment ago cannot be bound: an earlier bridge of this very run did not let go of them
+            tx.close()
+            return "0 START-FAILED(the bridge could not bind ports that were free: " + ",".join(str(p) for p in ports) + ")", []
         # somebody else asks for the same ports with SO_REUSEPORT set: a bridge that holds its ports exclusively (as it must, or
         # broadcasts would be shared out between the two) makes that fail
         thieves = []
